@@ -26,6 +26,18 @@ def make_case(ctx, rng, cid, window_prob=0.3):
     lay = rng.choice(list(fsgen.LAYOUTS.values()))
     n = rng.choice([1, 2, 3, 8, 20, 60, 300]) if not ctx.quick else rng.choice([1, 2, 3, 8, 20, 60])
     mode = rng.choice(TIME_MODES)
+    ambig = None
+    if rng.random() < 0.06:
+        # a record count that makes the file size a multiple of another layout's record size too (same file name family):
+        # the size alone does not tell the layouts apart, the scoring has to
+        import math
+        others = [l for l in fsgen.LAYOUTS.values() if l.filename == lay.filename and l.size != lay.size and getattr(l, "selectable", True)]
+        if others and getattr(lay, "selectable", True):
+            o = rng.choice(others)
+            step = o.size // math.gcd(o.size, lay.size)
+            if step <= 400:
+                n = step * rng.choice([1, 1, 2, 3] if step * 3 <= 400 else [1])
+                ambig = o.name
     has_usec = lay.time_usec is not None
     t0 = 1_690_000_000 + rng.randint(0, 100000)
     times = []
@@ -50,7 +62,7 @@ def make_case(ctx, rng, cid, window_prob=0.3):
         k = n // 2
         times = times[k:] + times[:k]
     full = rng.random() < 0.15
-    nulls = rng.random() < 0.3
+    nulls = rng.random() < 0.3 and ambig is None
     recs = []   # (record bytes, values or None)
     for i, (sec, usec) in enumerate(times):
         if nulls and rng.random() < 0.3:
@@ -91,7 +103,7 @@ def make_case(ctx, rng, cid, window_prob=0.3):
         else:
             a = x if "a" in wk else None
             b = y if "b" in wk else None
-    return dict(d=d, lay=lay, recs=recs, path=path, cont=cont, bsz=bsz, mode=mode, full=full, nulls=nulls, a=a, b=b, wk=wk, n=n)
+    return dict(d=d, lay=lay, recs=recs, path=path, cont=cont, bsz=bsz, mode=mode, full=full, nulls=nulls, a=a, b=b, wk=wk, n=n, ambig=ambig)
 
 
 def model(case):
@@ -119,7 +131,13 @@ def job(args):
     if case["b"] is not None:
         argv += ["-b", bound_str(case["b"])]
     r = core.run(argv + ["-s", case["path"]], core.base_env(tmpdir=case["d"]), timeout=120)
-    return r
+    repeat_outs = []
+    if case.get("ambig"):
+        # the same command again: the choice between equally plausible layouts must not differ from run to run
+        for _ in range(4):
+            r2 = core.run(argv + ["-s", case["path"]], core.base_env(tmpdir=case["d"]), timeout=120)
+            repeat_outs.append(r2.out)
+    return r, repeat_outs
 
 
 def chosen_type(err):
@@ -233,11 +251,18 @@ def judge(ctx, case, r, prefix="C08"):
 def run_cases(ctx, s4, ncases, window_prob, prefix):
     rng = ctx.rng
     jobs = [(s4, make_case(ctx, rng, cid, window_prob)) for cid in range(ncases)]
-    for (s4_, case), r in zip(jobs, core.pmap(job, jobs)):
+    for (s4_, case), (r, repeat_outs) in zip(jobs, core.pmap(job, jobs)):
         if r.timed_out:
             ctx.inconc("watchdog")
             continue
         ctx.evaluated(1, (case["lay"].name, case["mode"], case["cont"], case["bsz"], case["wk"], case["full"], case["nulls"], min(case["n"], 20)))
+        if case.get("ambig"):
+            ctx.count("files whose size is also a multiple of another layout's record size (5 runs each)")
+            if any(o != r.out for o in repeat_outs):
+                ctx.violation("%s|output-differs-between-runs-of-the-same-command|%s-vs-%s" % (prefix, case["lay"].name, case["ambig"]),
+                              "%d %s records (%d bytes, also a multiple of %s's record size): %d distinct outputs in 5 runs" % (
+                                  case["n"], case["lay"].name, sum(len(x) for x, _ in case["recs"]), case["ambig"], len({r.out} | set(repeat_outs))),
+                              src_dir=case["d"], info={"argv": r.argv, "env": r.env})
         judge(ctx, case, r, prefix)
 
 
